@@ -334,18 +334,18 @@ Definition instr_dyn (op : Z) (i : instr) (f : frame) (w : world) (s : list Z) (
   match i with
   | IFun _ _ =>
     if op =? 10 then Some (Some (byte_len (sk s 1) * g_exp_byte + g_exp, f_mcost f, 0))
-    else if op =? 32 then (if U64 <=? sk s 1 then Some None else plus (words (sk s 1) * g_sha3_word))
+    else if op =? 32 then (if (sk s 1 <? 0) || (U64 <=? sk s 1) then Some None else plus (words (sk s 1) * g_sha3_word))
     else if op =? 81 then memonly else None
   | IMstore | IMstore8 | IReturn | IRevert | ICreate | ICreate2 => memonly
-  | ICopy _ => if U64 <=? sk s 2 then Some None else plus (words (sk s 2) * g_copy)
-  | IExtCodeCopy => if U64 <=? sk s 3 then Some None else plus (words (sk s 3) * g_copy)
+  | ICopy _ => if (sk s 2 <? 0) || (U64 <=? sk s 2) then Some None else plus (words (sk s 2) * g_copy)
+  | IExtCodeCopy => if (sk s 3 <? 0) || (U64 <=? sk s 3) then Some None else plus (words (sk s 3) * g_copy)
   | ISstore =>
     let cur := sload w (f_self f) (sk s 0) in
     let new := sk s 1 in
     if (cur =? 0) && negb (new =? 0) then Some (Some (g_sstore_set, f_mcost f, 0))
     else if negb (cur =? 0) && (new =? 0) then Some (Some (g_sstore_clear, f_mcost f, 0))
     else Some (Some (g_sstore_reset, f_mcost f, 0))
-  | ILog n => if U64 <=? sk s 1 then Some None
+  | ILog n => if (sk s 1 <? 0) || (U64 <=? sk s 1) then Some None
               else plus (g_log + Z.of_nat n * g_log_topic + sk s 1 * g_log_data)
   | ICallOp k =>
     match mem_gas f msz with
